@@ -375,6 +375,34 @@ class _OneShot:
         return len(self.items)
 
 
+class _OldSeq:
+    """A starmap element that `func(*x)` accepts but that is no collections.abc.Iterable: the old sequence protocol
+    (__getitem__ from 0 until IndexError, __len__), nothing else."""
+
+    def __init__(self, items):
+        self.items = tuple(items)
+
+    def __getitem__(self, i):
+        return self.items[i]
+
+    def __len__(self):
+        return len(self.items)
+
+
+class _KeysObj:
+    """A doublestarmap element that `func(**x)` accepts but that is no collections.abc.Mapping: keys() and
+    __getitem__, nothing else (a database row, a namespace wrapper)."""
+
+    def __init__(self, d):
+        self.d = dict(d)
+
+    def keys(self):
+        return list(self.d)
+
+    def __getitem__(self, k):
+        return self.d[k]
+
+
 class _AsyncCallable:
     """Its instances (not the class itself) are awaitable-returning callables; neither is a coroutine function."""
     __name__ = "async_callable"
@@ -775,9 +803,11 @@ class Sim:
         if req.kind == "map":
             ok = len(args) == 1 and args[0] is x and not kwargs
         elif req.kind == "starmap":
-            xs = x.items if isinstance(x, _OneShot) else x
+            xs = x.items if isinstance(x, (_OneShot, _OldSeq)) else x
             ok = (not kwargs) and len(args) == len(xs) and all(a is b for a, b in zip(args, xs))
         else:
+            if isinstance(x, _KeysObj):
+                x = x.d
             ok = (not args) and set(kwargs) == set(x) and all(kwargs[k] is x[k] for k in x)
         if not ok:
             self.violate("C05", "element_args", f"r{req.label} element {el}: got {args!r} {kwargs!r}")
@@ -1437,11 +1467,15 @@ class Sim:
                             elems.append("ab")          # a string is an iterable of two arguments, like any other
                         elif b == 7:
                             elems.append(b"xy")         # bytes: two ints
+                        elif b == 8:
+                            elems.append(_OldSeq(tup))
                         else:
                             elems.append(7 if b == 1 else (() if b == 2 else (_OneShot(tup) if b == 3 else tup)))
                     else:
                         if b == 5:
                             elems.append({k: Payload(("el", label, i, k)) for k in ("group_name", "func", "self", "end_callback")})
+                        elif b == 8:
+                            elems.append(_KeysObj({"kw_a": Payload(("el", label, i, "a"))}))
                         else:
                             elems.append(7 if b == 1 else ({} if b == 2 else {"kw_a": Payload(("el", label, i, "a"))}))
                 req.elems = elems
